@@ -94,7 +94,7 @@ def gen_exchange(rng, https: bool):
 
 
 def gen(rng, tier):
-    paths = ["direct"] * 5 + ["fwd"] * 3 + (["direct_tls", "tunnel", "tunnel"] if tier == "thorough" else ["tunnel"])
+    paths = ["direct"] * 5 + ["fwd"] * 3 + (["direct_tls", "tunnel", "tunnel"] if tier == "thorough" else ["tunnel", "direct_tls"])
     path = rng.choice(paths)
     retry = gen_retry(rng)
     cfg = {"path": path, "retry": retry, "placement": rng.choice(["request", "request", "pool"]), "entry": rng.choice(["pool", "manager"]), "method": rng.choice(METHODS), "timeout": {"connect": 2.0, "read": 3.0}}
@@ -106,6 +106,8 @@ def gen(rng, tier):
     https = path in ("direct_tls", "tunnel")
     ex = [gen_exchange(rng, https) for _ in range(nx)]
     sc = {"property": ID, "config": cfg, "dials": dials, "exchanges": ex, "jitter_seed": rng.randrange(1000)}
+    if https and rng.random() < 0.4:
+        sc["backend"] = "pyopenssl"
     if https and rng.random() < 0.3:
         sc["certs"] = [rng.choice(["bad_any", "any"]) for _ in range(rng.choice([1, 2]))]
     if path == "tunnel" and rng.random() < 0.3:
@@ -133,6 +135,19 @@ def _prep_exchanges(w, exchanges):
 
 
 def run(sc: dict) -> Result:
+    if sc.get("backend") == "pyopenssl":
+        # the alternative TLS backend (urllib3.contrib.pyopenssl, in memory: simkit/ossl.py) for the duration of this run: its read
+        # time-outs and resets must land in the same categories as the stdlib backend's
+        from simkit import ossl
+
+        with ossl.injected():
+            res = _run(sc)
+        res.probes["backend:pyopenssl"] += 1
+        return res
+    return _run(sc)
+
+
+def _run(sc: dict) -> Result:
     from urllib3.exceptions import MaxRetryError, ResponseError
     from urllib3.util.retry import Retry
 
@@ -331,6 +346,10 @@ def shrinks(sc):
             c = copy.deepcopy(sc)
             del c[key][i]
             yield c
+    if sc.get("backend"):
+        c = copy.deepcopy(sc)
+        del c["backend"]
+        yield c
     cfg = sc["config"]
     for fld, simple in (("path", "direct"), ("entry", "pool"), ("placement", "request"), ("method", "GET")):
         if cfg[fld] != simple:
@@ -374,7 +393,11 @@ def _neut_proxy_read(sc):
 
 
 def _trig_retry_after(sc, res):
-    return any(ex.get("retry_after") not in (None, "0", "bogus") and ex.get("status") not in (413, 429, 503) for ex in sc["exchanges"])
+    # the recorded defect: a response that is retried *because its status is forcelisted* and that carries Retry-After is waited for
+    # as the header says.  (A status outside 413/429/503 that is not forcelisted is not retried at all on this tree.)
+    r = sc["config"].get("retry")
+    forcelist = set(r.get("status_forcelist") or ()) if isinstance(r, dict) else set()
+    return any(ex.get("retry_after") not in (None, "0", "bogus") and ex.get("status") not in (413, 429, 503) and ex.get("status") in forcelist for ex in sc["exchanges"])
 
 
 def _neut_retry_after(sc):
